@@ -138,9 +138,21 @@ func (w *Writer) writeByte(v byte) *Writer {
 // 若任一步骤失败，会回滚缓冲区到调用前长度，并保证 Bytes() 不包含部分写入的数据。
 func (w *Writer) WriteMessage(message any, codec Codec) (err error) {
 	startLen := len(w.buf)
+	if message == nil {
+		// 空消息（例如失败的 PipeResult 不携带消息）以“空数据 + 空名称”表示，由 ReadMessage 还原为 nil
+		w.WriteBytesWithLength(nil, LengthSize4)
+		if err = w.WriteFrom(""); err != nil {
+			w.buf = w.buf[:startLen]
+			return err
+		}
+		return nil
+	}
 	messageDesc := QueryMessageDesc(message)
 
 	if messageDesc.IsOutside() {
+		if codec == nil {
+			return fmt.Errorf("no codec configured for external message: %T", message)
+		}
 		data, encErr := codec.Encode(message)
 		if encErr != nil {
 			return encErr
@@ -435,50 +447,98 @@ func (w *Writer) Write(v interface{}) *Writer {
 
 	switch val := v.(type) {
 	case *byte:
+		if val == nil {
+			w.err = fmt.Errorf("cannot write nil pointer: %T", v)
+			return w
+		}
 		w.writeByte(*val)
 	case byte:
 		w.writeByte(val)
 	case *int8:
+		if val == nil {
+			w.err = fmt.Errorf("cannot write nil pointer: %T", v)
+			return w
+		}
 		w.WriteInt8(*val)
 	case int8:
 		w.WriteInt8(val)
 	case *int16:
+		if val == nil {
+			w.err = fmt.Errorf("cannot write nil pointer: %T", v)
+			return w
+		}
 		w.WriteInt16(*val)
 	case int16:
 		w.WriteInt16(val)
 	case *uint16:
+		if val == nil {
+			w.err = fmt.Errorf("cannot write nil pointer: %T", v)
+			return w
+		}
 		w.WriteUint16(*val)
 	case uint16:
 		w.WriteUint16(val)
 	case *uint32:
+		if val == nil {
+			w.err = fmt.Errorf("cannot write nil pointer: %T", v)
+			return w
+		}
 		w.WriteUint32(*val)
 	case uint32:
 		w.WriteUint32(val)
 	case *int32:
+		if val == nil {
+			w.err = fmt.Errorf("cannot write nil pointer: %T", v)
+			return w
+		}
 		w.WriteInt32(*val)
 	case int32:
 		w.WriteInt32(val)
 	case *uint64:
+		if val == nil {
+			w.err = fmt.Errorf("cannot write nil pointer: %T", v)
+			return w
+		}
 		w.WriteUint64(*val)
 	case uint64:
 		w.WriteUint64(val)
 	case *int64:
+		if val == nil {
+			w.err = fmt.Errorf("cannot write nil pointer: %T", v)
+			return w
+		}
 		w.WriteInt64(*val)
 	case int64:
 		w.WriteInt64(val)
 	case *float32:
+		if val == nil {
+			w.err = fmt.Errorf("cannot write nil pointer: %T", v)
+			return w
+		}
 		w.WriteFloat32(*val)
 	case float32:
 		w.WriteFloat32(val)
 	case *float64:
+		if val == nil {
+			w.err = fmt.Errorf("cannot write nil pointer: %T", v)
+			return w
+		}
 		w.WriteFloat64(*val)
 	case float64:
 		w.WriteFloat64(val)
 	case *bool:
+		if val == nil {
+			w.err = fmt.Errorf("cannot write nil pointer: %T", v)
+			return w
+		}
 		w.WriteBool(*val)
 	case bool:
 		w.WriteBool(val)
 	case *string:
+		if val == nil {
+			w.err = fmt.Errorf("cannot write nil pointer: %T", v)
+			return w
+		}
 		w.WriteString(*val)
 	case string:
 		w.WriteString(val)
